@@ -60,6 +60,7 @@ THEOREMS = [
     "Verif.C18.reexport_fixed_point",
     "Verif.C18.reexport_after_export",
     "Verif.C18.export_legacy_tags",
+    "Verif.C18.visible_selection",
 ]
 RULE = (
     "corpus + exhaustive small scope + seeded random + malformed stream. stack: real TIFF stacks written with tifffile "
@@ -161,11 +162,20 @@ def exposure_ns(page):
 
 
 def enc_ratlist(vals):
-    return "[" + ",".join(f"{Fraction(v).numerator}/{Fraction(v).denominator}" for v in vals) + "]"
+    return "[" + ",".join(v if isinstance(v, str) else f"{Fraction(v).numerator}/{Fraction(v).denominator}" for v in vals) + "]"
 
 
 def arr_rats(a):
-    return [Fraction(float(x)) if not isinstance(x, (int, np.integer)) else Fraction(int(x)) for x in np.asarray(a).ravel().tolist()]
+    """exact rationals of an array's values (non-finite values, which no dtype cast may produce, as tokens)"""
+    out = []
+    for x in np.asarray(a).ravel().tolist():
+        if isinstance(x, int):
+            out.append(Fraction(x))
+        elif math.isfinite(x):
+            out.append(Fraction(float(x)))
+        else:
+            out.append("nan" if math.isnan(x) else ("inf" if x > 0 else "-inf"))
+    return out
 
 
 # ------------------------------------------------------------------ stack kind
@@ -664,16 +674,17 @@ def oracle_confocal(case, ia):
     if got != want:
         bad = next(i for i, (g, w) in enumerate(zip(got, want)) if g != w) if len(got) == len(want) else -1
         return f"pixels: value #{bad} read back as {got[bad] if bad >= 0 else len(got)}, expected {want[bad] if bad >= 0 else len(want)} (dtype {case['dtype']}, clip {case['clip']})"
-    lo, hi = LIMITS[case["dtype"]]
-    if any(g < lo or g > hi for g in got):
-        return "pixels: a written value lies outside the dtype's range"
     for i, p in enumerate(raw1):
         if p["img"].dtype != np.dtype(DT_NP[case["dtype"]]) or p["img"].shape != frames[i].shape:
             return f"pixels: page {i} is {p['img'].dtype}{p['img'].shape}, expected {case['dtype']}{frames[i].shape}"
         if p["photometric"] != "RGB":
             return f"metadata: page {i} photometric {p['photometric']}"
     # timestamps: against the object's own answers, and (un-derived) against the info wave
+    if "dead" not in obs:
+        return f"timestamps: pages carry DateTime {raw1[0]['dt']!r} but the object cannot report its range with dead time ({obs.get('dead_error')})"
     dead, exp = obs["dead"], obs["exp"]
+    if len(dead) != len(raw1) or len(exp) != len(raw1):
+        return f"frames: {len(raw1)} pages written, the object reports {len(dead)} / {len(exp)} frame ranges"
     for i, p in enumerate(raw1):
         if p["dt"] != f"{dead[i][0]}:{dead[i][1]}":
             return f"timestamps: page {i} carries {p['dt']!r}, the object reports {dead[i]} with dead time"
